@@ -40,40 +40,54 @@ pub fn is_canonical_spelling(url: &str) -> bool {
 }
 
 impl Exec<'_> {
+    /// One load of `target` from `file`; `None` = done, go on.
+    fn do_load(&mut self, file: usize, kind: LoadKind, target: usize, alias: bool) -> Option<Verdict> {
+        self.loads += 1;
+        if self.loads > CAP {
+            return Some(Verdict::TooBig);
+        }
+        if let Some(pos) = self.in_progress.iter().position(|(f, _)| *f == target) {
+            self.closing = Some((file, target, kind));
+            self.cycle_kinds = self.in_progress[pos + 1..].iter().filter_map(|(_, k)| k.map(|k| k.0)).collect();
+            self.cycle_kinds.push(kind);
+            self.cycle_alias = alias || self.in_progress[pos + 1..].iter().any(|(_, k)| k.is_some_and(|k| k.1));
+            return Some(Verdict::Loop);
+        }
+        if kind.is_module() && self.cache_modules && self.loaded[target] {
+            return None;
+        }
+        self.in_progress.push((target, Some((kind, alias))));
+        let v = self.exec(target);
+        if v != Verdict::Ok {
+            return Some(v);
+        }
+        self.in_progress.pop();
+        if kind.is_module() {
+            self.loaded[target] = true;
+        }
+        None
+    }
+
     fn exec(&mut self, file: usize) -> Verdict {
         for s in &self.g.files[file].stmts {
-            if let Stmt::Load { kind, target, url, wrap, .. } = s {
-                let times = if *wrap == Wrap::Each { 2 } else { 1 };
-                for _ in 0..times {
-                    self.loads += 1;
-                    if self.loads > CAP {
-                        return Verdict::TooBig;
-                    }
-                    let alias = !is_canonical_spelling(url);
-                    if let Some(pos) = self.in_progress.iter().position(|(f, _)| f == target) {
-                        self.closing = Some((file, *target, *kind));
-                        self.cycle_kinds = self.in_progress[pos + 1..]
-                            .iter()
-                            .filter_map(|(_, k)| k.map(|k| k.0))
-                            .collect();
-                        self.cycle_kinds.push(*kind);
-                        self.cycle_alias = alias
-                            || self.in_progress[pos + 1..].iter().any(|(_, k)| k.is_some_and(|k| k.1));
-                        return Verdict::Loop;
-                    }
-                    if kind.is_module() && self.cache_modules && self.loaded[*target] {
-                        continue;
-                    }
-                    self.in_progress.push((*target, Some((*kind, alias))));
-                    let v = self.exec(*target);
-                    if v != Verdict::Ok {
-                        return v;
-                    }
-                    self.in_progress.pop();
-                    if kind.is_module() {
-                        self.loaded[*target] = true;
+            match s {
+                Stmt::Load { kind, target, url, wrap, .. } => {
+                    let times = if *wrap == Wrap::Each { 2 } else { 1 };
+                    for _ in 0..times {
+                        if let Some(v) = self.do_load(file, *kind, *target, !is_canonical_spelling(url)) {
+                            return v;
+                        }
                     }
                 }
+                // the mixin was defined in `lib`, but the load it performs runs on THIS file's load stack
+                Stmt::CallMixin { lib, id, .. } => {
+                    if let Some((target, url)) = self.g.mixin_def(*lib, *id) {
+                        if let Some(v) = self.do_load(file, LoadKind::LoadCss, target, !is_canonical_spelling(url)) {
+                            return v;
+                        }
+                    }
+                }
+                _ => {}
             }
         }
         Verdict::Ok
@@ -112,7 +126,12 @@ pub fn reachable_cycle(g: &GraphSpec) -> bool {
     fn dfs(g: &GraphSpec, f: usize, col: &mut [u8]) -> bool {
         col[f] = 1;
         for s in &g.files[f].stmts {
-            if let Stmt::Load { target, .. } = s {
+            let target = match s {
+                Stmt::Load { target, .. } => Some(*target),
+                Stmt::CallMixin { lib, id, .. } => g.mixin_def(*lib, *id).map(|(t, _)| t),
+                _ => None,
+            };
+            if let Some(target) = &target {
                 match col[*target] {
                     1 => return true,
                     0 => {
